@@ -43,6 +43,7 @@ class StepClock:
         self.pending_unwind = False
         self.pending_exc = None
         self.swallowed_by = None
+        self.via = []
         self.last_unwind = None
         self.budget = None
         self.kill_at = None
@@ -86,8 +87,12 @@ class StepClock:
             if not isinstance(exc, (StepBudgetExceeded, Killed)):
                 self.unwinds += 1
                 self.pending_unwind = True
+                if exc is not self.pending_exc:
+                    self.via = []
                 self.pending_exc = exc
                 self.last_unwind = type(exc).__name__
+        elif exc is self.pending_exc and fn.startswith(self.prefixes) and len(self.via) < 6:
+            self.via.append(code.co_qualname)
 
     def _line(self, code, line):
         k = self._known.get(code)
@@ -120,6 +125,7 @@ class StepClock:
         self.pending_unwind = False
         self.pending_exc = None
         self.swallowed_by = None
+        self.via = []
         self.last_unwind = None
         self.budget = budget
         self.kill_at = kill_at
